@@ -1,7 +1,7 @@
 (* Generic input tokens and output observables shared by the model runner and the
    Go harness.  Rendering happens here, inside Coq, so that the OCaml driver only
    tokenises lines and prints trees. *)
-From Coq Require Import ZArith List.
+From Coq Require Import ZArith List Bool.
 From RTP Require Import Base.Res Base.ListX Base.Own.
 Import ListNotations.
 Open Scope Z_scope.
@@ -17,6 +17,30 @@ Inductive value : Type :=
 | VBytes (l : list Z)
 | VList (l : list value)
 | VTag (n : Z) (v : value).
+
+(* decidable equality on observables, used by the in-Coq re-evaluation of a sub-corpus (thorough
+   tier): the extracted runner's outputs must be what vm_compute gives for the same cases *)
+Fixpoint zlist_eqb (a b : list Z) : bool :=
+  match a, b with
+  | [], [] => true
+  | x :: s, y :: t => (x =? y) && zlist_eqb s t
+  | _, _ => false
+  end.
+
+Fixpoint value_eqb (a b : value) : bool :=
+  match a, b with
+  | VInt x, VInt y => x =? y
+  | VBytes x, VBytes y => zlist_eqb x y
+  | VList x, VList y =>
+    (fix go (l1 l2 : list value) : bool :=
+       match l1, l2 with
+       | [], [] => true
+       | h1 :: t1, h2 :: t2 => value_eqb h1 h2 && go t1 t2
+       | _, _ => false
+       end) x y
+  | VTag n v, VTag m w => (n =? m) && value_eqb v w
+  | _, _ => false
+  end.
 
 Definition VBool (b : bool) : value := VInt (if b then 1 else 0).
 Definition VUnit : value := VList [].
